@@ -200,6 +200,7 @@ func ZipRaw(names []string, contents [][]byte, deflate bool) []byte {
 
 type StaticCfg struct {
 	Agencies, Routes, Stops, Transfers, Services, DateRows, Shapes, ShapePts, Trips, StopTimesPerTrip, Freqs int
+	DistinctDates                                                                                            bool // calendar_dates.txt: every row another date (giant feeds)
 	HasCalendar, HasCalendarDates, HasShapes, HasTransfers, HasFreqs                                         bool
 	ShuffleCols, ExtraCols, Quoting                                                                          bool
 	OptionalCols                                                                                             int  // out of 4: fraction of optional columns present
@@ -559,8 +560,27 @@ func GenStatic(t *sim.T, c StaticCfg) *StaticModel {
 				rows = append(rows, []string{m.ServiceIDs[i], gtfsDate(t.Choose(360)), fmt.Sprint(1 + t.Choose(2))})
 			}
 		}
-		for i := 0; i < c.DateRows; i++ {
-			rows = append(rows, []string{m.ServiceIDs[t.Choose(len(m.ServiceIDs))], gtfsDate(t.Choose(360)), fmt.Sprint(1 + t.Choose(2))})
+		if c.DistinctDates {
+			// every row another date (consecutive days from 2024-01-01 on, Gregorian rules): more than 2^16 of them
+			y, mo, d := 2024, 1, 1
+			for i := 0; i < c.DateRows; i++ {
+				rows = append(rows, []string{m.ServiceIDs[t.Choose(len(m.ServiceIDs))], fmt.Sprintf("%04d%02d%02d", y, mo, d), fmt.Sprint(1 + t.Choose(2))})
+				dim := []int{31, 28, 31, 30, 31, 30, 31, 31, 30, 31, 30, 31}[mo-1]
+				if mo == 2 && y%4 == 0 && (y%100 != 0 || y%400 == 0) {
+					dim = 29
+				}
+				if d++; d > dim {
+					d = 1
+					if mo++; mo > 12 {
+						mo = 1
+						y++
+					}
+				}
+			}
+		} else {
+			for i := 0; i < c.DateRows; i++ {
+				rows = append(rows, []string{m.ServiceIDs[t.Choose(len(m.ServiceIDs))], gtfsDate(t.Choose(360)), fmt.Sprint(1 + t.Choose(2))})
+			}
 		}
 		cols := []colSpec{{"service_id", true}, {"date", true}, {"exception_type", true}}
 		f.Tables = append(f.Tables, finishTable(t, c, "calendar_dates.txt", cols, rows))
@@ -739,6 +759,10 @@ func GiantDistinctCfg(t *sim.T) StaticCfg {
 	c.Quoting = false
 	c.OptionalCols = 4
 	c.DistinctText = true
+	// ... and more than 2^16 different service dates (190 years of consecutive days)
+	c.HasCalendarDates = true
+	c.DistinctDates = true
+	c.DateRows = 67000 + t.Choose(6000)
 	return c
 }
 
